@@ -431,7 +431,8 @@ func (r *runner) get(k string) {
 		if !found {
 			return "nil"
 		}
-		s := "v:" + vh.Hex(v)
+		// the value and the Key field of the returned entry (the model computes both)
+		s := "v:" + vh.Hex(v) + ";k:" + vh.HexS(rk)
 		if rk != k {
 			sig := "get-key-mismatch"
 			if r.pviewOverCache() {
